@@ -210,6 +210,19 @@ check('C06', 'E2', 'model_checking',
       '(shallow clone sharing, stale parentNode of detached nodes, fragment re-parenting, self-fragment parent links).',
       'DESIGN.md 2/C06')
 
-_PENDING = {'C10': 'check not built yet in this round (planned: bounded exhaustive exploration, see DESIGN.md section 2)', 'C11': 'check not built yet in this round (planned: bounded exhaustive exploration, see DESIGN.md section 2)', 'C13': 'check not built yet in this round (planned: bounded exhaustive exploration, see DESIGN.md section 2)', 'C15': 'check not built yet in this round (planned: bounded exhaustive exploration, see DESIGN.md section 2)', 'C19': 'check not built yet in this round (planned: bounded exhaustive exploration, see DESIGN.md section 2)'}
+check('C15', 'E2', 'model_checking',
+      'explicit-state BFS over request histories per template configuration against a model written from the statement',
+      'For 42 template ASTs (0-3 static names, 0-4 wildcard alternatives over $id, $title, $title(2), sect$num, sect$num(3), '
+      '$id-$num, ${jobname}_$id, explicit extensions) x 3 forbidden-character sets x 2 reserved-name sets, breadth-first search '
+      'over all histories (depth 6 quick / 12 thorough) of requests binding id in {unbound,a,b,"a b:c","a.b"} and title in '
+      '{unbound,T,"T U V",a,""}; every history is replayed on a fresh Filenames object in lock-step with the model (static '
+      'names first and in order, first fully bound fresh alternative, $num advancing only on issued/skipped numbered '
+      'candidates, padding, word limit, character replacement, extension rule, error instead of duplicate or endless loop); '
+      'plus all templates in two alternative spellings and 120-request histories for the give-up bound.',
+      'Trusted: vp/refs/c15_filenames_model.py (about 150 lines, no plasTeX import). One open finding (generator dead after '
+      'its first error).',
+      'DESIGN.md 2/C15')
+
+_PENDING = {'C10': 'check not built yet in this round (planned: bounded exhaustive exploration, see DESIGN.md section 2)', 'C11': 'check not built yet in this round (planned: bounded exhaustive exploration, see DESIGN.md section 2)', 'C13': 'check not built yet in this round (planned: bounded exhaustive exploration, see DESIGN.md section 2)', 'C19': 'check not built yet in this round (planned: bounded exhaustive exploration, see DESIGN.md section 2)'}
 for _p, _why in _PENDING.items():
     NOT_APPLICABLE.append({'property_id': _p, 'reason': _why})
